@@ -735,3 +735,63 @@ def state_push_only(run, ctx):
             run.violation(fam, "push-cap", "at-cap", H.where(fn), "State::push at the cap must not push and must return Err(StackOverflow), found %s" % v)
     if ok:
         run.ok(fam, "push-cap", H.where(fn), n, "branch stack depth is capped by max_stack; overflow is an Err, not growth")
+
+
+def own_ix(run, ctx):
+    """Every write to the text index in vm::run has an approved form (offset validity, C05)."""
+    fam, label = "OWN", "ix-writers"
+    fn = vm_run(run, ctx, fam, label)
+    if fn is None:
+        return
+    POS = [p.get("name") for p in fn["params"]][2]
+    approved = [
+        ("+=", "codepoint_len_at(s,ix)", "advance by the code point at ix (guarded by ix < len, VMARM/stepping)"),
+        ("=", "ix_end", "end of a successful byte-wise literal / backreference comparison"),
+        ("=", "state.get({slot})", "Restore: a position saved earlier from ix"),
+        ("=", "prev_codepoint_ix(s,ix)", "GoBack: previous code point boundary"),
+        ("=", "{m}.offset()", "delegate end offset (regex-automata, anchored at ix)"),
+        ("=", "inner_slots[1].unwrap().get()", "delegate overall end offset"),
+        ("=", "{newix}", "position of a popped branch (was ix when pushed)"),
+    ]
+    n = 0
+    for nd in H.walk(fn["body"]):
+        if nd.get("k") in ("Assign", "AssignOp") and H.canon(nd["l"]) == "ix":
+            op = "=" if nd["k"] == "Assign" else H.OPSYM.get(nd["op"].replace("Assign", ""), nd["op"]) + "="
+            rhs = H.canon(nd["r"])
+            n += 1
+            ok = False
+            for aop, pat, why in approved:
+                if aop == op and H.pat_match(pat, rhs):
+                    ok = True
+                    if pat == "{newix}":
+                        # must be bound from state.pop()
+                        lets = [x for x in H.walk(fn["body"]) if x.get("k") == "Let" and H.canon(x.get("init")) == "state.pop()" and rhs in H.pat_canon(x["pat"])]
+                        ok = bool(lets)
+                    if pat == "ix_end":
+                        lets = [x for x in H.walk(fn["body"]) if x.get("k") == "Let" and x["pat"].get("name") == "ix_end"]
+                        ok = bool(lets) and all(H.pat_match("(ix + len({v}))", H.canon(x["init"])) for x in lets)
+                    break
+            if not ok:
+                run.violation(fam, label, "form/%s%s" % (op, rhs), H.where(nd), "vm::run writes `ix %s %s`: not one of the approved ways of moving the text index (whole code points, previously held positions, engine offsets); a reported offset could fall inside a character or beyond the text" % (op, rhs))
+    inits = [x for x in H.walk(fn["body"]) if x.get("k") == "Let" and x["pat"].get("name") == "ix"]
+    if len(inits) != 1 or H.canon(inits[0]["init"]) != POS:
+        run.violation(fam, label, "init", H.where(fn), "ix must start at the caller's position")
+    run.floor(fam, label, H.where(fn), n, 8, "writes to ix in vm::run")
+    run.ok(fam, label, H.where(fn), n, "%d writes to ix, all of approved forms" % n)
+    # Match construction sites
+    label = "Match-constructors"
+    sites = []
+    for path, f2 in ctx.facts.hir.items():
+        sp = strip_generics(path)
+        for nd in H.walk(f2["body"]):
+            if nd.get("k") == "Struct" and strip_generics(nd.get("adt", "")) == "Match":
+                sites.append((sp, "literal", nd))
+            if nd.get("k") == "Call" and H.canon(nd).startswith("Match::new("):
+                sites.append((sp, "new", nd))
+    allowed = {("Match::new", "literal"), ("Captures::get", "literal"), ("Regex::find_from_pos_with_option_flags", "new")}
+    for sp, how, nd in sites:
+        base = sp.split("::{closure")[0]
+        if (base, how) not in allowed:
+            run.violation(fam, label, "%s/%s" % (sp, how), H.where(nd), "a Match is constructed in %s: spans may only be built from a successful run's slot pair or an engine span (Match::new in find_from_pos*, Captures::get)" % sp)
+    run.floor(fam, label, "src/lib.rs", len(sites), 4, "Match construction sites")
+    run.ok(fam, label, "src/lib.rs", len(sites), "Match built only in Match::new, Captures::get and find_from_pos_with_option_flags")
